@@ -121,8 +121,41 @@ def wfLayoutW (g : Geometry) (w : Nat → Char) (n : Nat) : Bool :=
 
 def wfLayoutU (g : Geometry) (u : Str) : Bool := wfLayoutW g (letter u) u.length
 
-/-- the property's quantifier for a circular part -/
+/-- the layouts the theorems cover for a circular part -/
 def wfLayout (g : Geometry) (s : Str) : Bool := wfLayoutU g (s.map Char.toUpper)
+
+/-! ### coincident cuts (blunt cutters only)
+
+With overhang length 0 a forward and a backward-pointing site can cut at the SAME bond.  The property
+statement ("the stretches lying between the cut of a forward-pointing site and the cut of the next
+backward-pointing site", "paired cuts at least two overhang lengths APART") does not say what the
+digestion returns there: whether the empty stretch counts as a fragment, and whether a bond cut from
+both sides ends the stretch of an earlier forward cut.  `stretch` above resolves both ties one way
+(the empty stretch is reported; a forward cut at the same distance as the nearest reverse cut cancels
+the stretch); `stretchAlt` resolves both the other way.  The PROPERTY'S QUANTIFIER is `wfLayout` minus
+the layouts with a coincident forward/reverse cut (`noCoincident`): there the two resolutions agree
+(`tie_free` in Props/C10), so nothing judged depends on the choice.  On layouts with coincident cuts
+the theorems still hold for the stated resolution, but they are not judged against the code. -/
+
+/-- no forward cut shares its bond with a reverse cut -/
+def noCoincident (g : Geometry) (w : Nat → Char) (n : Nat) : Bool :=
+  (fwdCuts g w n).all fun c => !(revCuts g w n).contains c
+
+/-- the other resolution of both ties: a reverse cut at the same bond is not "the next" cut, and a
+forward cut at the same distance as the nearest reverse cut does not cancel the stretch -/
+def stretchAlt (n : Nat) (fs rs : List Nat) (c : Nat) : Option Nat :=
+  match (rs.map (dist n c)).min? with
+  | none => none
+  | some d => if d == 0 then none
+              else if (fs.filter (· != c)).all (fun c' => d ≤ dist n c c') then some d else none
+
+def digestAltW (g : Geometry) (w : Nat → Char) (n : Nat) : List (Str × Str × Str) :=
+  let fs := fwdCuts g w n
+  let rs := revCuts g w n
+  fs.filterMap fun c => (stretchAlt n fs rs c).map fun d => triple g.oh (window w c d)
+
+/-- the property's quantifier for a circular part (upper-cased word) -/
+def inQuantifierW (g : Geometry) (w : Nat → Char) (n : Nat) : Bool := wfLayoutW g w n && noCoincident g w n
 
 /-! ### linear parts: the same reading without wrap-around (`w` is only consulted below `n`) -/
 
@@ -163,6 +196,22 @@ def pairedApartLin (g : Geometry) (w : Nat → Char) (n : Nat) : Bool :=
 
 def wfLinearW (g : Geometry) (w : Nat → Char) (n : Nat) : Bool :=
   wfGeometry g && noOverlapLin g w n && pairedApartLin g w n
+
+def noCoincidentLin (g : Geometry) (w : Nat → Char) (n : Nat) : Bool :=
+  (linFwdCuts g w n).all fun c => !(linRevCuts g w n).contains c
+
+def linStretchAlt (fs rs : List Int) (c : Int) : Option Nat :=
+  match ((rs.filter (c < ·)).map fun r => (r - c).toNat).min? with
+  | none => none
+  | some d => if (fs.filter (c < ·)).all (fun c' => (d : Int) ≤ c' - c) then some d else none
+
+def digestLinAltW (g : Geometry) (w : Nat → Char) (n : Nat) : List (Str × Str × Str) :=
+  let fs := linFwdCuts g w n
+  let rs := linRevCuts g w n
+  fs.filterMap fun c => (linStretchAlt fs rs c).map fun d => triple g.oh (window w c.toNat d)
+
+/-- the property's quantifier for a linear part (upper-cased word) -/
+def inQuantifierLinW (g : Geometry) (w : Nat → Char) (n : Nat) : Bool := wfLinearW g w n && noCoincidentLin g w n
 
 def wfLinear (g : Geometry) (s : Str) : Bool :=
   let u := s.map Char.toUpper
